@@ -9,9 +9,10 @@ from ..hyp import drive
 
 PROP = "C01"
 RULE = (
-    "Hypothesis grammar-generated cell-integral forms (arity 0/1/2; all cells; element pool incl. blocked/"
+    "Hypothesis grammar-generated cell-integral forms plus instances of 15 standard-form templates (arity 0/1/2; all cells; element pool incl. blocked/"
     "symmetric/mixed/enriched/Piola/real; affine, degree-2 and manifold geometry; 1-3 integrals with own "
-    "quadrature metadata) x 2 random input sets x scalar type; oracle: independent numpy reference evaluator "
+    "quadrature metadata; quadrature-element coefficients; Bessel functions; adjoint/action/replace/derivative; arguments inside "
+    "conditionals; factors in the conjugated slot) x 2 random input sets x scalar type; a corpus of minimised past failures is replayed first; oracle: independent numpy reference evaluator "
     "with propagated error bound. Non-trivial = form has a coefficient or argument AND (non-affine or "
     "non-simplex cell, non-P/DG element, >=2 distinct rules, manifold, or a derivative/tensor operator); "
     "distinct by spec hash."
